@@ -2,6 +2,7 @@ package verifsim
 
 import (
 	"fmt"
+	"sort"
 	"strings"
 	"testing/synctest"
 
@@ -188,6 +189,28 @@ func (r *e1Run) doSchema(step, node, kind, arg int) {
 	nd.TakeUpdates()
 	r.res.logf("step %d schema n%d %s", step, node, what)
 	r.order = append(r.order, fmt.Sprintf("S%d:%s", node, what))
+	// (0) exactly one version of the collection is active, and it is the one that was asked for
+	if acts, e := nd.DB.GetCollections(nd.reqCtx(), client.CollectionFetchOptions{}); e != nil {
+		r.res.violate("C19", "unreadable-after-schema-change", "collections", step, "node %d after %s: GetCollections: %v", node, what, e)
+		return
+	} else {
+		var ids []string
+		all := acts
+		acts = nil
+		for _, c := range all {
+			if c.Name() != "User" {
+				continue
+			}
+			acts = append(acts, c)
+			ids = append(ids, fmt.Sprint(indexOf(r.versions, c.Version().VersionID)))
+		}
+		sort.Strings(ids)
+		if len(acts) != 1 || acts[0].Version().VersionID != r.versions[r.nodeVer[node]] {
+			r.res.violate("C19", "active-version-wrong", what[:strings.Index(what+" ", " ")], step,
+				"node %d after %s: active versions %v, want exactly [%d]", node, what, ids, r.nodeVer[node])
+			return
+		}
+	}
 	// (a) values, identifiers and history of existing documents unchanged (fields both versions have)
 	common := before
 	if after := r.nodeFields(node); len(after) < len(common) {
@@ -208,4 +231,13 @@ func (r *e1Run) doSchema(step, node, kind, arg int) {
 	}
 	// (b) readable under the active version, added fields null / previously written values back
 	r.checkNode(step, node, "schema change: "+what)
+}
+
+func indexOf(xs []string, x string) int {
+	for i, y := range xs {
+		if y == x {
+			return i
+		}
+	}
+	return -1
 }
